@@ -256,3 +256,19 @@ def _limit_source(repo):
     lean = (f"def contextLimitSource : String := {lean_str(_norm(m.group(1)))}\n"
             f"def parserGuardCond : String := {lean_str(g.group(1))}")
     return {"limit": _norm(m.group(1)), "parser_guard": g.group(1)}, lean
+
+
+@item("C11_CONTEXT_HELPERS")
+def _context_helpers(repo):
+    """the helpers that put frames into a (fresh or pooled) context: their whole bodies — a macro
+    context always has its base frame and the closure frame, whatever the base value is"""
+    src = _strip(read(repo, CTX))
+    rows = [
+        ("reset_with_frame", _norm(fn_body(src, r"pub fn reset_with_frame\(&mut self, frame: Frame<'env>\)\s*\{"))),
+        ("clear", _norm(fn_body(src, r"pub fn clear\(&mut self\)\s*\{"))),
+        ("new_with_frame", _norm(fn_body(src, r"pub fn new_with_frame\(env: &'env Environment<'env>, frame: Frame<'env>\) -> Context<'env>\s*\{"))),
+        ("pop_frame", _norm(fn_body(src, r"pub fn pop_frame\(&mut self\) -> Frame<'env>\s*\{"))),
+    ]
+    lean = ("def contextHelpers : List (String × String) := [\n  "
+            + ",\n  ".join(f"({lean_str(a)}, {lean_str(b)})" for a, b in rows) + "]")
+    return rows, lean
